@@ -84,7 +84,10 @@ CLAIMS["C04"] = (REFINE + "Props/C04: element i of a non-try result is what bran
                  "Lean 4 refinement proof + position theorem on the reference loop; K2 on enumerated depth profiles", "§7 C04")
 CLAIMS["C06"] = (REFINE + "Props/C06: after a failing step j no event of a later step exists, every branch active in j ran its chain to the end, "
                  "and no handler call happens; for the async try macros (async_try_stops_at_failure) the failing chain's end is the last event "
-                 "of the loop. " + K2NOTE, NOTE_COMMON + ASYNC_NOTE,
+                 "of the loop under the canonical schedule, and failed_step_aborts_every_schedule (poll-level plan, Plan.run_stopper): if some "
+                 "chain of step k ends with a failure (or panics), then under EVERY schedule of gate openings every event emitted from there on "
+                 "belongs to step k — no capture, chain or callback of a later step, no handler call — and the future is either still in step k "
+                 "or finished with that step's failure, unchanged (or the panic). " + K2NOTE, NOTE_COMMON + ASYNC_NOTE,
                  "Lean 4 refinement proof + trace theorems; K2 event-log differential", "§7 C06")
 CLAIMS["C11"] = (REFINE + "Props/C11: the hoisting operator set equals the documented one (table theorem over regenerated T9); capture events are "
                  "exactly (active branch, position, operand) in order, once each; sorted before the chains of their step and after the previous "
